@@ -454,7 +454,7 @@ def error_operator(case):
             return ErrorCalculatorExtendSplit()
         from sparseSpACE.ErrorCalculator import ErrorCalculatorSingleDimVolumeGuided
         return ErrorCalculatorSingleDimVolumeGuided()
-    return make_tape_err(case["tape"], case["mode"], box=(case["a"], case["b"]))
+    return make_tape_err(case["tape"], case["mode"], box=(case["a"], case["b"]) if ("a" in case and "b" in case) else None)
 
 
 class StopHistory(Exception):
